@@ -17,7 +17,8 @@ vars == <<cfg, time, dt, phase, k, hist, saveTime, noSent, stat, obs, out, mon, 
 
 P == INSTANCE IvpProtocol WITH
        Plus <- LAMBDA a, b : a + b, Minus <- LAMBDA a, b : a - b, Mul <- LAMBDA n, x : n * x,
-       DivN <- LAMBDA x, n : x \div n, Lt <- LAMBDA a, b : a < b, Le <- LAMBDA a, b : a <= b
+       DivN <- LAMBDA x, n : x \div n, Lt <- LAMBDA a, b : a < b, Le <- LAMBDA a, b : a <= b,
+       LtC <- LAMBDA a, b : a < b, LeC <- LAMBDA a, b : a <= b, KeepHistory <- TRUE
 
 C == INSTANCE IvpContract WITH
        Plus <- LAMBDA a, b : a + b, Minus <- LAMBDA a, b : a - b,
@@ -80,6 +81,8 @@ HistAligned == P!HistAligned
 StepWithinMax == P!StepWithinMax
 NothingPending == P!NothingPendingAtDone
 AtMostOneErr == stat = "failed" => (obs[1] \in {"err", "none"})
+\* the rejected start-up is rolled back to where it started
+RollBackExact == (P!MS /\ phase = "plain" /\ hist = <<>> /\ stat = "run" /\ obs = <<"redo">>) => time = saveTime \/ out # <<>>
 \* MinimumTimeDeltaExceeded is reported only when the trial step is below the minimum
 FailOnlyBelowMin == (obs = <<"err", "MinimumTimeDeltaExceeded">>) => dt < cfg.dtmin
 
